@@ -32,6 +32,12 @@ def handleHdr (ws xmlns to src id lang emitted : String) : Option String := do
     let faithful := Header.sameStart st (Header.expected args)
     pure ((if faithful then "" else "UNFAITHFUL ") ++ showStart st)
 
+def handleTag (bytes : String) : Option String := do
+  let b ← txt bytes
+  match Header.readHeader b.toList with
+  | none => pure "MALFORMED"
+  | some st => pure (showStart st)
+
 /-! ### neg -/
 
 def decHTok (s : String) : Option StreamNeg.HTok :=
@@ -155,6 +161,7 @@ def handle (args : List String) : Option String :=
   | "neg" :: role :: ws :: s2s :: loc :: orig :: jids :: hdrs => handleNeg role ws s2s loc orig jids none hdrs
   | "nege" :: role :: ws :: s2s :: loc :: orig :: jids :: tee :: budget :: cancel :: hdrs =>
     handleNeg role ws s2s loc orig jids (some (tee, budget, cancel)) hdrs
+  | ["tag", bytes] => handleTag bytes
   | ["bindc", locl, reply, a, b, ajid, bjid] => handleBindC locl reply a b ajid bjid
   | ["binds", s2s, remote, reqid, reqres, cb, a, cbjid, rto, rfrom] =>
     handleBindS s2s remote reqid reqres cb a cbjid rto rfrom
